@@ -4,6 +4,11 @@ valid and consistent while checks are added)."""
 import json, sys
 
 CLAIMED = {
+ "C04": dict(
+    technique="deterministic simulation: seeded search-agent episodes (sequences of real rewrites on cloned states); every tree touched is printed, re-parsed by a fresh parser and compared by an exact-rational reference evaluator",
+    text="Exploration by deterministic simulation of the 'programs' half of the quantifier (trees reached by any sequence of rewrites) together with the parser-produced start trees of those episodes: the same seeded rewrite episodes as C09, with start texts biased to the broad documented grammar; every tree the episode touches (start, every rewrite result whether or not C09 admits it) must print to text a fresh parser accepts, re-parse to an exactly-rational-equivalent tree (planted solutions and affine roots for equations) with the same variable set. A sample of the reachable population, not an enumeration of kind x kind x side combinations.",
+    ref="DESIGN.md 12.7",
+    note="Trusted: the harness's exact Fraction evaluator and tolerance rule; sampled points; trees <= 90 nodes. Only trees the episodes reach are judged."),
  "C09": dict(
     technique="deterministic simulation: seeded search-agent episodes (rewrite schedules over a pool of live states) with per-step reference-model oracles, ddmin-minimised replay",
     text="Exploration by deterministic simulation: a simulated search agent expands many live states in seeded order through the real rules (each step on a clone_from_root copy); after every step an exact-rational reference evaluator, an own link audit, a fresh-parser print/re-parse check and a shadow-snapshot isolation check are evaluated. Sampling of the unbounded space of (start, sequence) pairs; a clean batch is evidence, not proof.",
@@ -35,7 +40,6 @@ NA = {
  "C01": "pure function of (tree, node, rule, option): no history, schedule, clock or fault for a simulator to control; exercised along C09 episodes but not claimed",
  "C02": "pure function of (equation, node, rule): same as C01; exercised by C09 episodes that start from equations but not claimed",
  "C03": "pure function of the input string (grammar conformance); no state, interleaving or fault involved",
- "C04": "pure function of one tree (print then parse); the rewrite-reachable population is visited by C09's re-parse invariant, not claimed here",
  "C05": "pure function of (tree, assignment); evaluation reads no state, clock or stream",
  "C06": "pure function of (tree, node, rule): rules are stateless and the applicability check writes only the r_index scratch field; no schedule or fault to simulate",
  "C07": "pure function of (tree, node, rule); structural soundness of one result has no history dimension (C09's isolation invariant exercises it, no claim)",
